@@ -267,7 +267,7 @@ func RunCheck(id, tier, repo string, seed int, updateBaseline, quiet, writeEvide
 	}
 	sort.Strings(missing)
 	if len(names) == 0 {
-		fmt.Printf("UNDECIDED property=%s: no function under contract matches\n", id)
+		emitf(quiet, "UNDECIDED property=%s: no function under contract matches\n", id)
 		return CheckResult{Exit: 2}
 	}
 	var units []*Unit
@@ -287,7 +287,7 @@ func RunCheck(id, tier, repo string, seed int, updateBaseline, quiet, writeEvide
 		}
 	}
 	if len(unsupported) > 0 {
-		fmt.Printf("UNDECIDED property=%s: outside the verified subset / contract does not type-check:\n  %s\n", id, strings.Join(unsupported, "\n  "))
+		emitf(quiet, "UNDECIDED property=%s: outside the verified subset / contract does not type-check:\n  %s\n", id, strings.Join(unsupported, "\n  "))
 		return CheckResult{Exit: 2}
 	}
 	tmo := 10
@@ -369,7 +369,7 @@ func RunCheck(id, tier, repo string, seed int, updateBaseline, quiet, writeEvide
 			continue
 		}
 		if r.Res.Status == "disagree" {
-			fmt.Printf("UNDECIDED property=%s: solvers disagree on %s (%v)\n", id, r.Ob.Name, r.Res.All)
+			emitf(quiet, "UNDECIDED property=%s: solvers disagree on %s (%v)\n", id, r.Ob.Name, r.Res.All)
 			res.Exit = 2
 			continue
 		}
@@ -414,7 +414,7 @@ func RunCheck(id, tier, repo string, seed int, updateBaseline, quiet, writeEvide
 	os.MkdirAll(outDir, 0o755)
 	for _, n := range knownHit {
 		line := fmt.Sprintf("KNOWN-FINDING: property=%s %s :: %s", id, n, known[n].Text)
-		fmt.Println(line)
+		emitf(quiet, "%s\n", line)
 		res.Lines = append(res.Lines, line)
 		res.Known = append(res.Known, n)
 	}
@@ -428,7 +428,7 @@ func RunCheck(id, tier, repo string, seed int, updateBaseline, quiet, writeEvide
 		b, _ := json.MarshalIndent(rf, "", " ")
 		os.WriteFile(path, b, 0o644)
 		line := fmt.Sprintf("VIOLATION property=%s replay=%s%s", id, path, suffix)
-		fmt.Println(line)
+		emitf(quiet, "%s\n", line)
 		say("  obligation %s [%s] clause: %s", r.Ob.Name, r.Res.Status, r.Ob.Src)
 		res.Lines = append(res.Lines, line)
 		res.Failed = append(res.Failed, r.Ob.Name)
@@ -438,20 +438,42 @@ func RunCheck(id, tier, repo string, seed int, updateBaseline, quiet, writeEvide
 	}
 	if len(missing) > 0 && res.Exit == 0 {
 		// the remaining functions were still verified above: a failed obligation there is reported as a violation first
-		fmt.Printf("UNDECIDED property=%s: functions under contract no longer exist: %s\n", id, strings.Join(missing, ", "))
+		emitf(quiet, "UNDECIDED property=%s: functions under contract no longer exist: %s\n", id, strings.Join(missing, ", "))
 		res.Exit = 2
 	}
 	if len(vacuityBad) > 0 && res.Exit == 0 {
-		fmt.Printf("UNDECIDED property=%s: vacuous preconditions or unreachable guards: %s\n", id, strings.Join(vacuityBad, ", "))
+		emitf(quiet, "UNDECIDED property=%s: vacuous preconditions or unreachable guards: %s\n", id, strings.Join(vacuityBad, ", "))
 		res.Exit = 2
 	}
 	if len(anchorsMissing) > 0 && res.Exit == 0 {
-		fmt.Printf("UNDECIDED property=%s: baseline obligations no longer generated (anchor missing): %s\n", id, strings.Join(anchorsMissing, ", "))
+		emitf(quiet, "UNDECIDED property=%s: baseline obligations no longer generated (anchor missing): %s\n", id, strings.Join(anchorsMissing, ", "))
 		res.Exit = 2
 	}
 	if res.Obligations == 0 && res.Exit == 0 {
-		fmt.Printf("UNDECIDED property=%s: zero obligations generated\n", id)
+		emitf(quiet, "UNDECIDED property=%s: zero obligations generated\n", id)
 		res.Exit = 2
+	}
+
+	// thorough tier: the must-fail corpus (mutants and seeded changes) is replayed on a scratch copy of the current
+	// tree: a check that no longer notices one of them has lost sensitivity and must not report "holds"
+	var corpus []MutantResult
+	if tier == "thorough" && res.Exit == 0 && !quiet {
+		var cerr error
+		corpus, cerr = SelfTest(id, repo, false, "")
+		if cerr != nil {
+			fmt.Printf("UNDECIDED property=%s: must-fail corpus could not be run: %v\n", id, cerr)
+			res.Exit = 2
+		}
+		var lost []string
+		for _, m := range corpus {
+			if m.Applied && !m.Killed {
+				lost = append(lost, m.Name)
+			}
+		}
+		if len(lost) > 0 {
+			fmt.Printf("UNDECIDED property=%s: the check does not notice %d change(s) of its must-fail corpus any more: %s\n", id, len(lost), strings.Join(lost, ", "))
+			res.Exit = 2
+		}
 	}
 
 	// evidence
@@ -601,6 +623,7 @@ func RunCheck(id, tier, repo string, seed int, updateBaseline, quiet, writeEvide
 			"technique":               cfg.Technique,
 			"integers":                "Go integers are mathematical Ints with explicit wrap-around at the type's width on + - * and conversions (not treated as unbounded)",
 			"contract_files":          eng.DB.Files,
+			"must_fail_corpus":        corpusSummary(corpus, tier),
 		}
 		ev := evidence{PropertyID: id, Tier: tier, Seed: seed, Level: "proof", Coverage: cov, Assumptions: assumptions, WallS: round2(time.Since(start).Seconds()), Violations: len(failed)}
 		b, _ := json.MarshalIndent(ev, "", " ")
@@ -610,6 +633,31 @@ func RunCheck(id, tier, repo string, seed int, updateBaseline, quiet, writeEvide
 	say("property %s: %d functions, %d obligations (%d parts), %d discharged, %d failed, %d known findings; load %.1fs gen %.1fs solve %.1fs",
 		id, len(names), res.Obligations, nParts, res.Discharged, len(failed), len(knownHit), eng.LoadSeconds, genS, solveWall)
 	return res
+}
+
+// emitf prints a verdict line unless this run is an inner run over a deliberately broken scratch copy
+func emitf(quiet bool, f string, a ...interface{}) {
+	if !quiet {
+		fmt.Printf(f, a...)
+	}
+}
+
+func corpusSummary(c []MutantResult, tier string) map[string]interface{} {
+	if tier != "thorough" {
+		return map[string]interface{}{"run": false, "note": "the must-fail corpus (mutants + seeded changes) is replayed in the thorough tier"}
+	}
+	n, killed, skipped := 0, 0, 0
+	var names []string
+	for _, m := range c {
+		n++
+		if !m.Applied {
+			skipped++
+		} else if m.Killed {
+			killed++
+		}
+		names = append(names, m.Name)
+	}
+	return map[string]interface{}{"run": true, "changes": n, "detected": killed, "patch_did_not_apply": skipped, "names": names}
 }
 
 func round2(f float64) float64 { return float64(int(f*100+0.5)) / 100 }
